@@ -61,7 +61,7 @@ static const LvlV lvl_variants[] = {
     {"ml1",          0, 1, 1,   true},     // single level: smoother only
 };
 
-struct Cfg { int ci, ri, lv; unsigned ncycle, npre, npost, pre_cycles; };
+struct Cfg { int ci, ri, lv; unsigned ncycle, npre, npost, pre_cycles; bool est = false; /* coarsening.estimate_spectral_radius */ };
 
 static ptree make_ptree(const Cfg &c, int n) {
     ptree p;
@@ -72,10 +72,11 @@ static ptree make_ptree(const Cfg &c, int n) {
     if (v.max_levels != INF) p.put("max_levels", v.max_levels);
     p.put("direct_coarse", v.direct);
     p.put("ncycle", c.ncycle); p.put("npre", c.npre); p.put("npost", c.npost); p.put("pre_cycles", c.pre_cycles);
+    if (c.est) p.put("coarsening.estimate_spectral_radius", true);
     return p;
 }
 static std::string cfg_key(const Cfg &c) {
-    return vf::KS() << coars_names[c.ci] << "|" << relax_names[c.ri] << "|" << lvl_variants[c.lv].name << "|nc" << c.ncycle << "|pre" << c.npre << "|post" << c.npost << "|pc" << c.pre_cycles;
+    return vf::KS() << coars_names[c.ci] << "|" << relax_names[c.ri] << "|" << lvl_variants[c.lv].name << "|nc" << c.ncycle << "|pre" << c.npre << "|post" << c.npost << "|pc" << c.pre_cycles << (c.est ? "|est" : "");
 }
 
 static std::vector<double> ramp(int n) { std::vector<double> f(n); for (int i = 0; i < n; ++i) f[i] = 1 + (i * 3) % 7; return f; }
@@ -445,6 +446,14 @@ static void run_grids() {
                 auto keyf = [&]{ return std::string(vf::KS() << "grid|" << m.id << "|" << cfg_key(c)); };
                 if (!vf::take(keyf)) continue;
                 run_case(keyf(), m, c, false);
+            }
+            // smoothed aggregation with the damping taken from the estimated spectral radius of D^-1 A (non-default): all oracles,
+            // in particular invariance of B under scaling of A by powers of two
+            for (int ri : {0, 1, 2}) for (int lv : {0, 2}) for (unsigned q = 1; q <= 2; ++q) {
+                Cfg c{1, ri, lv, q, q, q, 1}; c.est = true;
+                auto keyf = [&]{ return std::string(vf::KS() << "grid|" << m.id << "|" << cfg_key(c)); };
+                if (!vf::take(keyf)) continue;
+                run_case(keyf(), m, c, true);
             }
             vf::space(vf::KS() << "grid " << m.id << ": one-sided smoothing (npre,npost) in {(0,1),(0,2),(1,0),(2,0)} x 4 coarsenings x {damped_jacobi, spai0, gauss_seidel} x {ce1_direct, ce2_smooth} x ncycle{1,2} x pre_cycles{1,2}");
         }
